@@ -200,7 +200,10 @@ impl<'a> Analyzer<'a> {
                     && child_info_truth.const_size
                     && child_info_false.const_size
                     // if the condition's size plus the truth branch's size is equal to the false branch's size then it's const size
-                    && child_info_condition.min_size + child_info_truth.min_size == child_info_false.min_size;
+                    && child_info_condition
+                        .min_size
+                        .saturating_add(child_info_truth.min_size)
+                        == child_info_false.min_size;
 
                 children.push(child_info_condition);
                 children.push(child_info_truth);
